@@ -102,11 +102,11 @@ theorem scatter_fold_getElem? (F : Nat → Option (R × R)) (I : List Nat) (acc 
 /-- pointwise description of `find_global_peaks(refinement="integral")` on the flat `(S·C)` view:
 valid rows get `rough + offsets` computed on **their own** flat map around **their own** rough
 cell, invalid rows stay NaN, values are untouched. -/
-theorem globalRefineFlat_getElem? (rough : Nat → Nat → GPeak R) (r : Nat) (b : Batch R) (k : Nat)
+theorem globalRefineFlat_getElem? (rough : Nat → Nat → GPeak R) (q : Nat) (b : Batch R) (k : Nat)
     (hk : k < b.S * b.C) :
-    (globalRefineFlat rough r b)[k]? =
+    (globalRefineFlat rough q b)[k]? =
       some ⟨(rough (k / b.C) (k % b.C)).pt,
-            (rough (k / b.C) (k % b.C)).pt.map (fun xy => refinePoint b.h b.w (b.flat k) r xy.1 xy.2),
+            (rough (k / b.C) (k % b.C)).pt.map (fun xy => refinePoint b.h b.w (b.flat k) q xy.1 xy.2),
             (rough (k / b.C) (k % b.C)).val⟩ := by
   unfold globalRefineFlat
   simp only
@@ -122,97 +122,260 @@ theorem globalRefineFlat_getElem? (rough : Nat → Nat → GPeak R) (r : Nat) (b
   | none => simp
   | some xy => obtain ⟨x, y⟩ := xy; simp
 
-/-! ### bump patches -/
+/-! ### crops: parity cases, negation, transposition -/
 
-/-- the patch samples an even, radially non-increasing profile `g(d²)` centred at
-`(r + δx, r + δy)` in patch coordinates -/
-structure BumpPatch (r : Nat) (P : Nat → Nat → R) (g : R → R) (δx δy : R) : Prop where
-  shape : ∀ a b, a < 2*r+1 → b < 2*r+1 → P a b = g (((b : R) - r - δx)^2 + ((a : R) - r - δy)^2)
-  anti : ∀ u v, 0 ≤ u → u ≤ v → g v ≤ g u
+theorem cropZ_odd (Z : Int → Int → R) {p : Nat} (hp : p % 2 = 1) (cx cy a b : Nat) :
+    cropZ Z p cx cy a b = Z ((cy : Int) - ((p / 2 : Nat) : Int) + a) ((cx : Int) - ((p / 2 : Nat) : Int) + b) := by
+  unfold cropZ; simp only; rw [if_pos hp]
 
-theorem BumpPatch.transpose {r : Nat} {P : Nat → Nat → R} {g : R → R} {δx δy : R}
-    (B : BumpPatch r P g δx δy) : BumpPatch r (fun a b => P b a) g δy δx :=
-  ⟨fun a b ha hb => by rw [B.shape b a hb ha, add_comm], B.anti⟩
+theorem cropZ_even (Z : Int → Int → R) {p : Nat} (hp : ¬ p % 2 = 1) (cx cy a b : Nat) :
+    cropZ Z p cx cy a b =
+      (Z ((cy : Int) - ((p / 2 : Nat) : Int) + a) ((cx : Int) - ((p / 2 : Nat) : Int) + b)
+        + Z ((cy : Int) - ((p / 2 : Nat) : Int) + a) ((cx : Int) - ((p / 2 : Nat) : Int) + b + 1)
+        + Z ((cy : Int) - ((p / 2 : Nat) : Int) + a + 1) ((cx : Int) - ((p / 2 : Nat) : Int) + b)
+        + Z ((cy : Int) - ((p / 2 : Nat) : Int) + a + 1) ((cx : Int) - ((p / 2 : Nat) : Int) + b + 1)) / 4 := by
+  unfold cropZ; simp only; rw [if_neg hp]
+  norm_num
 
-theorem mirror_sq {r b : Nat} (hb : b < 2*r+1) (δ : R) :
-    (((2*r - b : Nat) : R) - r - δ)^2 - ((b : R) - r - δ)^2 = 4 * ((b : R) - r) * δ := by
-  rw [Nat.cast_sub (by omega)]
+theorem cropZ_neg (Z : Int → Int → R) (p cx cy a b : Nat) :
+    cropZ (fun i j => - Z i j) p cx cy a b = - cropZ Z p cx cy a b := by
+  by_cases hp : p % 2 = 1
+  · rw [cropZ_odd _ hp, cropZ_odd _ hp]
+  · rw [cropZ_even _ hp, cropZ_even _ hp]; ring
+
+theorem cropZ_transpose (Z : Int → Int → R) (p cx cy a b : Nat) :
+    cropZ Z p cx cy a b = cropZ (fun i j => Z j i) p cy cx b a := by
+  by_cases hp : p % 2 = 1
+  · rw [cropZ_odd _ hp, cropZ_odd _ hp]
+  · rw [cropZ_even _ hp, cropZ_even _ hp]; ring
+
+theorem zeroPadAt_transpose (h w : Nat) (img : Nat → Nat → R) (i j : Int) :
+    zeroPadAt h w img i j = zeroPadAt w h (fun a b => img b a) j i := by
+  unfold zeroPadAt
+  have : inB h w i j = inB w h j i := by
+    simp only [inB]
+    cases decide (0 ≤ i) <;> cases decide (i < (h : Int)) <;> cases decide (0 ≤ j) <;> cases decide (j < (w : Int)) <;> rfl
+  rw [this]
+
+theorem patch_transpose (h w : Nat) (img : Nat → Nat → R) (p cx cy a b : Nat) :
+    patch h w img p cx cy a b = patch w h (fun i j => img j i) p cy cx b a := by
+  unfold patch
+  rw [cropZ_transpose]
+  congr 1
+  funext i j
+  exact zeroPadAt_transpose h w img j i
+
+/-! ### mirror dominance: from the (padded) map to the crop rows -/
+
+/-- On the rows and columns a `p`-crop around `(cx,cy)` reads, every cell at or right of column `cx`
+is at least its mirror image about column `cx`. -/
+def ColDom (Z : Int → Int → R) (p cx cy : Nat) : Prop :=
+  ∀ i j : Int, (cy : Int) - ((p / 2 : Nat) : Int) ≤ i → i ≤ (cy : Int) + ((p / 2 : Nat) : Int) →
+    (cx : Int) ≤ j → j ≤ (cx : Int) + ((p / 2 : Nat) : Int) → Z i (2 * (cx : Int) - j) ≤ Z i j
+
+/-- strict right of `cx` -/
+def SColDom (Z : Int → Int → R) (p cx cy : Nat) : Prop :=
+  ∀ i j : Int, (cy : Int) - ((p / 2 : Nat) : Int) ≤ i → i ≤ (cy : Int) + ((p / 2 : Nat) : Int) →
+    (cx : Int) < j → j ≤ (cx : Int) + ((p / 2 : Nat) : Int) → Z i (2 * (cx : Int) - j) < Z i j
+
+theorem SColDom.toColDom {Z : Int → Int → R} {p cx cy : Nat} (H : SColDom Z p cx cy) : ColDom Z p cx cy := by
+  intro i j h1 h2 h3 h4
+  rcases lt_or_eq_of_le h3 with h | h
+  · exact le_of_lt (H i j h1 h2 h h4)
+  · subst h
+    have : 2 * (cx : Int) - cx = cx := by omega
+    rw [this]
+
+theorem cropZ_dom_right {Z : Int → Int → R} {p cx cy : Nat} (H : ColDom Z p cx cy) :
+    ∀ a b, a < p → p - 1 < 2 * b → b < p → cropZ Z p cx cy a (p - 1 - b) ≤ cropZ Z p cx cy a b := by
+  intro a b ha hb2 hb
+  by_cases hp : p % 2 = 1
+  · rw [cropZ_odd _ hp, cropZ_odd _ hp]
+    have e : (cx : Int) - ((p / 2 : Nat) : Int) + ((p - 1 - b : Nat) : Int)
+        = 2 * (cx : Int) - ((cx : Int) - ((p / 2 : Nat) : Int) + b) := by omega
+    rw [e]
+    apply H <;> omega
+  · rw [cropZ_even _ hp, cropZ_even _ hp]
+    have e1 : (cx : Int) - ((p / 2 : Nat) : Int) + ((p - 1 - b : Nat) : Int)
+        = 2 * (cx : Int) - ((cx : Int) - ((p / 2 : Nat) : Int) + b + 1) := by omega
+    have e2 : 2 * (cx : Int) - ((cx : Int) - ((p / 2 : Nat) : Int) + b + 1) + 1
+        = 2 * (cx : Int) - ((cx : Int) - ((p / 2 : Nat) : Int) + b) := by omega
+    rw [e1, e2]
+    have h1 := H ((cy : Int) - ((p / 2 : Nat) : Int) + a) ((cx : Int) - ((p / 2 : Nat) : Int) + b)
+      (by omega) (by omega) (by omega) (by omega)
+    have h2 := H ((cy : Int) - ((p / 2 : Nat) : Int) + a) ((cx : Int) - ((p / 2 : Nat) : Int) + b + 1)
+      (by omega) (by omega) (by omega) (by omega)
+    have h3 := H ((cy : Int) - ((p / 2 : Nat) : Int) + a + 1) ((cx : Int) - ((p / 2 : Nat) : Int) + b)
+      (by omega) (by omega) (by omega) (by omega)
+    have h4 := H ((cy : Int) - ((p / 2 : Nat) : Int) + a + 1) ((cx : Int) - ((p / 2 : Nat) : Int) + b + 1)
+      (by omega) (by omega) (by omega) (by omega)
+    apply div_le_div_of_nonneg_right _ (by norm_num : (0 : R) ≤ 4)
+    linarith
+
+theorem cropZ_sdom_right {Z : Int → Int → R} {p cx cy : Nat} (H : SColDom Z p cx cy) :
+    ∀ a b, a < p → p - 1 < 2 * b → b < p → cropZ Z p cx cy a (p - 1 - b) < cropZ Z p cx cy a b := by
+  intro a b ha hb2 hb
+  have HL := H.toColDom
+  by_cases hp : p % 2 = 1
+  · rw [cropZ_odd _ hp, cropZ_odd _ hp]
+    have e : (cx : Int) - ((p / 2 : Nat) : Int) + ((p - 1 - b : Nat) : Int)
+        = 2 * (cx : Int) - ((cx : Int) - ((p / 2 : Nat) : Int) + b) := by omega
+    rw [e]
+    apply H <;> omega
+  · rw [cropZ_even _ hp, cropZ_even _ hp]
+    have e1 : (cx : Int) - ((p / 2 : Nat) : Int) + ((p - 1 - b : Nat) : Int)
+        = 2 * (cx : Int) - ((cx : Int) - ((p / 2 : Nat) : Int) + b + 1) := by omega
+    have e2 : 2 * (cx : Int) - ((cx : Int) - ((p / 2 : Nat) : Int) + b + 1) + 1
+        = 2 * (cx : Int) - ((cx : Int) - ((p / 2 : Nat) : Int) + b) := by omega
+    rw [e1, e2]
+    have h1 := HL ((cy : Int) - ((p / 2 : Nat) : Int) + a) ((cx : Int) - ((p / 2 : Nat) : Int) + b)
+      (by omega) (by omega) (by omega) (by omega)
+    have h2 := H ((cy : Int) - ((p / 2 : Nat) : Int) + a) ((cx : Int) - ((p / 2 : Nat) : Int) + b + 1)
+      (by omega) (by omega) (by omega) (by omega)
+    have h3 := HL ((cy : Int) - ((p / 2 : Nat) : Int) + a + 1) ((cx : Int) - ((p / 2 : Nat) : Int) + b)
+      (by omega) (by omega) (by omega) (by omega)
+    have h4 := H ((cy : Int) - ((p / 2 : Nat) : Int) + a + 1) ((cx : Int) - ((p / 2 : Nat) : Int) + b + 1)
+      (by omega) (by omega) (by omega) (by omega)
+    apply div_lt_div_of_pos_right _ (by norm_num : (0 : R) < 4)
+    linarith
+
+/-! ### bump maps -/
+
+/-- the map is an even, radially non-increasing profile `g(d²)` centred at `(cx+δx, cy+δy)` and the
+`p`-crop around cell `(cx,cy)` lies inside the map -/
+structure BumpMap (h w : Nat) (img : Nat → Nat → R) (g : R → R) (p cx cy : Nat) (δx δy : R) : Prop where
+  x0 : p / 2 ≤ cx
+  x1 : cx + p / 2 < w
+  y0 : p / 2 ≤ cy
+  y1 : cy + p / 2 < h
+  shape : ∀ i j, i < h → j < w → img i j = g (((j : R) - (cx + δx))^2 + ((i : R) - (cy + δy))^2)
+
+theorem BumpMap.transpose {h w : Nat} {img : Nat → Nat → R} {g : R → R} {p cx cy : Nat} {δx δy : R}
+    (B : BumpMap h w img g p cx cy δx δy) : BumpMap w h (fun i j => img j i) g p cy cx δy δx :=
+  ⟨B.y0, B.y1, B.x0, B.x1, fun i j hi hj => by rw [B.shape j i hj hi, add_comm]⟩
+
+/-- value of the padded bump map at an in-range signed position -/
+theorem BumpMap.at {h w : Nat} {img : Nat → Nat → R} {g : R → R} {p cx cy : Nat} {δx δy : R}
+    (B : BumpMap h w img g p cx cy δx δy) (i j : Int) (hi0 : 0 ≤ i) (hi1 : i < h) (hj0 : 0 ≤ j) (hj1 : j < w) :
+    zeroPadAt h w img i j = g (((j : R) - (cx + δx))^2 + ((i : R) - (cy + δy))^2) := by
+  have hi : ((i.toNat : Nat) : Int) = i := Int.toNat_of_nonneg hi0
+  have hj : ((j.toNat : Nat) : Int) = j := Int.toNat_of_nonneg hj0
+  rw [zeroPadAt_of_nat img (i' := i.toNat) (j' := j.toNat) hi.symm hj.symm (by omega) (by omega),
+      B.shape _ _ (by omega) (by omega)]
+  have ci : ((i.toNat : Nat) : R) = (i : R) := by rw [← Int.cast_natCast, hi]
+  have cj : ((j.toNat : Nat) : R) = (j : R) := by rw [← Int.cast_natCast, hj]
+  rw [ci, cj]
+
+theorem mirror_sq' (cx : Nat) (j : Int) (δ : R) :
+    (((2 * (cx : Int) - j : Int) : R) - (cx + δ))^2 - ((j : R) - (cx + δ))^2 = 4 * ((j : R) - cx) * δ := by
   push_cast; ring
 
-theorem bump_dom_right {r : Nat} {P : Nat → Nat → R} {g : R → R} {δx δy : R} (B : BumpPatch r P g δx δy)
-    (hδ : 0 ≤ δx) : ∀ a b, a < 2*r+1 → r < b → b < 2*r+1 → P a (2*r - b) ≤ P a b := by
-  intro a b ha hrb hb
-  rw [B.shape a b ha hb, B.shape a (2*r - b) ha (by omega)]
-  apply B.anti
+theorem BumpMap.colDom {h w : Nat} {img : Nat → Nat → R} {g : R → R} {p cx cy : Nat} {δx δy : R}
+    (B : BumpMap h w img g p cx cy δx δy) (anti : ∀ u v, 0 ≤ u → u ≤ v → g v ≤ g u) (hδ : 0 ≤ δx) :
+    ColDom (zeroPadAt h w img) p cx cy := by
+  intro i j h1 h2 h3 h4
+  have := B.x0; have := B.x1; have := B.y0; have := B.y1
+  rw [B.at i j (by omega) (by omega) (by omega) (by omega),
+      B.at i (2 * (cx : Int) - j) (by omega) (by omega) (by omega) (by omega)]
+  apply anti
   · positivity
-  · have h1 := mirror_sq (R := R) hb δx
-    have h2 : (0 : R) < (b : R) - r := by rw [sub_pos]; exact_mod_cast hrb
-    have h3 : 0 ≤ 4 * ((b : R) - r) * δx := by positivity
+  · have e := mirror_sq' (R := R) cx j δx
+    have hk : (0 : R) ≤ (j : R) - cx := by
+      have : ((cx : Int) : R) ≤ (j : R) := by exact_mod_cast h3
+      simpa using sub_nonneg.mpr this
+    have : 0 ≤ 4 * ((j : R) - cx) * δx := by positivity
     linarith
 
-theorem bump_dom_left {r : Nat} {P : Nat → Nat → R} {g : R → R} {δx δy : R} (B : BumpPatch r P g δx δy)
-    (hδ : δx ≤ 0) : ∀ a b, a < 2*r+1 → r < b → b < 2*r+1 → P a b ≤ P a (2*r - b) := by
-  intro a b ha hrb hb
-  rw [B.shape a b ha hb, B.shape a (2*r - b) ha (by omega)]
-  apply B.anti
+theorem BumpMap.sColDom {h w : Nat} {img : Nat → Nat → R} {g : R → R} {p cx cy : Nat} {δx δy : R}
+    (B : BumpMap h w img g p cx cy δx δy) (santi : ∀ u v, 0 ≤ u → u < v → g v < g u) (hδ : 0 < δx) :
+    SColDom (zeroPadAt h w img) p cx cy := by
+  intro i j h1 h2 h3 h4
+  have := B.x0; have := B.x1; have := B.y0; have := B.y1
+  rw [B.at i j (by omega) (by omega) (by omega) (by omega),
+      B.at i (2 * (cx : Int) - j) (by omega) (by omega) (by omega) (by omega)]
+  apply santi
   · positivity
-  · have h1 := mirror_sq (R := R) hb δx
-    have h2 : (0 : R) < (b : R) - r := by rw [sub_pos]; exact_mod_cast hrb
-    have h3 : 4 * ((b : R) - r) * δx ≤ 0 := by
-      have : 0 ≤ 4 * ((b : R) - r) * (-δx) := by
-        have : 0 ≤ -δx := by linarith
-        positivity
-      linarith
+  · have e := mirror_sq' (R := R) cx j δx
+    have hk : (0 : R) < (j : R) - cx := by
+      have : ((cx : Int) : R) < (j : R) := by exact_mod_cast h3
+      simpa using sub_pos.mpr this
+    have : 0 < 4 * ((j : R) - cx) * δx := by positivity
     linarith
 
-theorem bump_sdom_right {r : Nat} {P : Nat → Nat → R} {g : R → R} {δx δy : R} (B : BumpPatch r P g δx δy)
-    (hs : ∀ u v, 0 ≤ u → u < v → g v < g u)
-    (hδ : 0 < δx) : ∀ a b, a < 2*r+1 → r < b → b < 2*r+1 → P a (2*r - b) < P a b := by
-  intro a b ha hrb hb
-  rw [B.shape a b ha hb, B.shape a (2*r - b) ha (by omega)]
-  apply hs
+/-- `δx ≤ 0`: the mirrored (negated) statement -/
+theorem BumpMap.colDom_neg {h w : Nat} {img : Nat → Nat → R} {g : R → R} {p cx cy : Nat} {δx δy : R}
+    (B : BumpMap h w img g p cx cy δx δy) (anti : ∀ u v, 0 ≤ u → u ≤ v → g v ≤ g u) (hδ : δx ≤ 0) :
+    ColDom (fun i j => - zeroPadAt h w img i j) p cx cy := by
+  intro i j h1 h2 h3 h4
+  have := B.x0; have := B.x1; have := B.y0; have := B.y1
+  show - zeroPadAt h w img i (2 * (cx : Int) - j) ≤ - zeroPadAt h w img i j
+  rw [B.at i j (by omega) (by omega) (by omega) (by omega),
+      B.at i (2 * (cx : Int) - j) (by omega) (by omega) (by omega) (by omega), neg_le_neg_iff]
+  apply anti
   · positivity
-  · have h1 := mirror_sq (R := R) hb δx
-    have h2 : (0 : R) < (b : R) - r := by rw [sub_pos]; exact_mod_cast hrb
-    have h3 : 0 < 4 * ((b : R) - r) * δx := by positivity
+  · have e := mirror_sq' (R := R) cx j δx
+    have hk : (0 : R) ≤ (j : R) - cx := by
+      have : ((cx : Int) : R) ≤ (j : R) := by exact_mod_cast h3
+      simpa using sub_nonneg.mpr this
+    have : 0 ≤ 4 * ((j : R) - cx) * (-δx) := by
+      have : 0 ≤ -δx := by linarith
+      positivity
     linarith
 
-theorem bump_sdom_left {r : Nat} {P : Nat → Nat → R} {g : R → R} {δx δy : R} (B : BumpPatch r P g δx δy)
-    (hs : ∀ u v, 0 ≤ u → u < v → g v < g u)
-    (hδ : δx < 0) : ∀ a b, a < 2*r+1 → r < b → b < 2*r+1 → P a b < P a (2*r - b) := by
-  intro a b ha hrb hb
-  rw [B.shape a b ha hb, B.shape a (2*r - b) ha (by omega)]
-  apply hs
+theorem BumpMap.sColDom_neg {h w : Nat} {img : Nat → Nat → R} {g : R → R} {p cx cy : Nat} {δx δy : R}
+    (B : BumpMap h w img g p cx cy δx δy) (santi : ∀ u v, 0 ≤ u → u < v → g v < g u) (hδ : δx < 0) :
+    SColDom (fun i j => - zeroPadAt h w img i j) p cx cy := by
+  intro i j h1 h2 h3 h4
+  have := B.x0; have := B.x1; have := B.y0; have := B.y1
+  show - zeroPadAt h w img i (2 * (cx : Int) - j) < - zeroPadAt h w img i j
+  rw [B.at i j (by omega) (by omega) (by omega) (by omega),
+      B.at i (2 * (cx : Int) - j) (by omega) (by omega) (by omega) (by omega), neg_lt_neg_iff]
+  apply santi
   · positivity
-  · have h1 := mirror_sq (R := R) hb δx
-    have h2 : (0 : R) < (b : R) - r := by rw [sub_pos]; exact_mod_cast hrb
-    have h3 : 4 * ((b : R) - r) * δx < 0 := by
-      have : 0 < 4 * ((b : R) - r) * (-δx) := by
-        have : 0 < -δx := by linarith
-        positivity
-      linarith
+  · have e := mirror_sq' (R := R) cx j δx
+    have hk : (0 : R) < (j : R) - cx := by
+      have : ((cx : Int) : R) < (j : R) := by exact_mod_cast h3
+      simpa using sub_pos.mpr this
+    have : 0 < 4 * ((j : R) - cx) * (-δx) := by
+      have : 0 < -δx := by linarith
+      positivity
     linarith
 
-/-- a patch that lies inside the map reads the map itself -/
-theorem patch_inside {h w : Nat} (img : Nat → Nat → R) {r cx cy a b : Nat}
-    (hx0 : r ≤ cx) (hx1 : cx + r < w) (hy0 : r ≤ cy) (hy1 : cy + r < h) (ha : a < 2*r+1) (hb : b < 2*r+1) :
-    patch h w img r cx cy a b = img (cy - r + a) (cx - r + b) := by
-  unfold patch zeroPadAt
-  have : inB h w ((cy : Int) - r + a) ((cx : Int) - r + b) = true := by
-    simp only [inB, Bool.and_eq_true, decide_eq_true_eq]; omega
-  rw [if_pos this]
-  congr 1 <;> omega
+/-! ### sign of the x-numerator on a bump map (y: apply to the transpose) -/
 
-/-- a bump map sampled by an inside patch is a bump patch -/
-theorem bumpPatch_of_map {h w : Nat} (img : Nat → Nat → R) (g : R → R) {r cx cy : Nat} (δx δy : R)
-    (hx0 : r ≤ cx) (hx1 : cx + r < w) (hy0 : r ≤ cy) (hy1 : cy + r < h)
-    (himg : ∀ i j, i < h → j < w → img i j = g (((j : R) - (cx + δx))^2 + ((i : R) - (cy + δy))^2))
-    (anti : ∀ u v, 0 ≤ u → u ≤ v → g v ≤ g u) :
-    BumpPatch r (patch h w img r cx cy) g δx δy := by
-  refine ⟨fun a b ha hb => ?_, anti⟩
-  rw [patch_inside img hx0 hx1 hy0 hy1 ha hb, himg _ _ (by omega) (by omega)]
-  congr 2
-  · rw [Nat.cast_add, Nat.cast_sub hx0]; ring
-  · rw [Nat.cast_add, Nat.cast_sub hy0]; ring
+theorem BumpMap.xNum_nonneg {h w : Nat} {img : Nat → Nat → R} {g : R → R} {p cx cy : Nat} {δx δy : R}
+    (B : BumpMap h w img g p cx cy δx δy) (anti : ∀ u v, 0 ≤ u → u ≤ v → g v ≤ g u) (hδ : 0 ≤ δx) :
+    0 ≤ xNum p (patch h w img p cx cy) :=
+  Peaks.xNum_nonneg p _ (cropZ_dom_right (B.colDom anti hδ))
+
+theorem BumpMap.xNum_nonpos {h w : Nat} {img : Nat → Nat → R} {g : R → R} {p cx cy : Nat} {δx δy : R}
+    (B : BumpMap h w img g p cx cy δx δy) (anti : ∀ u v, 0 ≤ u → u ≤ v → g v ≤ g u) (hδ : δx ≤ 0) :
+    xNum p (patch h w img p cx cy) ≤ 0 := by
+  apply Peaks.xNum_nonpos p _
+  intro a b ha hb2 hb
+  have := cropZ_dom_right (B.colDom_neg anti hδ) a b ha hb2 hb
+  rw [cropZ_neg, cropZ_neg, neg_le_neg_iff] at this
+  exact this
+
+theorem BumpMap.xNum_pos {h w : Nat} {img : Nat → Nat → R} {g : R → R} {p cx cy : Nat} {δx δy : R}
+    (B : BumpMap h w img g p cx cy δx δy) (hp : 2 ≤ p) (santi : ∀ u v, 0 ≤ u → u < v → g v < g u) (hδ : 0 < δx) :
+    0 < xNum p (patch h w img p cx cy) :=
+  Peaks.xNum_pos p hp _ (cropZ_sdom_right (B.sColDom santi hδ))
+
+theorem BumpMap.xNum_neg {h w : Nat} {img : Nat → Nat → R} {g : R → R} {p cx cy : Nat} {δx δy : R}
+    (B : BumpMap h w img g p cx cy δx δy) (hp : 2 ≤ p) (santi : ∀ u v, 0 ≤ u → u < v → g v < g u) (hδ : δx < 0) :
+    xNum p (patch h w img p cx cy) < 0 := by
+  apply Peaks.xNum_neg p hp _
+  intro a b ha hb2 hb
+  have := cropZ_sdom_right (B.sColDom_neg santi hδ) a b ha hb2 hb
+  rw [cropZ_neg, cropZ_neg, neg_lt_neg_iff] at this
+  exact this
+
+theorem yNum_eq_xNum_patch_transpose (h w : Nat) (img : Nat → Nat → R) (p cx cy : Nat) :
+    yNum p (patch h w img p cx cy) = xNum p (patch w h (fun i j => img j i) p cy cx) := by
+  rw [yNum_eq_xNum_transpose]
+  congr 1
+  funext a b
+  exact patch_transpose h w img p cx cy b a
 
 end SleapVerif.Peaks
